@@ -5,6 +5,7 @@ def flavour_oracle(scr, out):
     hits = []
     for ln, (l, o) in enumerate(zip(scr, out)):
         parts = o.split('|')
+        if l.split(' ')[0] == 'REST' and parts[0] == 'OK': return hits      # a restored backup rolls identifiers back: keys issued since are outside its history
         if len(parts) < 2: continue
         kind, f, items = dumps.fields(parts[1])
         st = dumps.structure(f.get('S', ''))
